@@ -46,6 +46,11 @@ func VerifMuxWriteTo(m *UDPMuxDefault, buf []byte, addr net.Addr) (int, error) {
 	return m.writeTo(buf, addr)
 }
 
+// VerifMuxWriteToAddrPort is the netip.AddrPort flavour of the mux's write path (what an AddrPort-capable handle calls).
+func VerifMuxWriteToAddrPort(m *UDPMuxDefault, buf []byte, addr netip.AddrPort) (int, error) {
+	return m.writeToUDPAddrPort(buf, addr)
+}
+
 // VerifMuxAbortWrite is the abort entry point used by a closing agent.
 func VerifMuxAbortWrite(m *UDPMuxDefault) error { return m.abortWrite() }
 
